@@ -256,15 +256,15 @@ GC_DECODE = [
 ]
 GC_OPTIONS = [
     H(ROOT + 'gc::gc_k_options_decode_and_unknown', ['derived Deserialize for AuthenticatorOptions', 'cbor-smol ignore()'],
-      kind='gc', bound='one unknown member at three positions, six value shapes'),
+      kind='gc', bound='two concrete option maps; one unknown member at three positions, six value shapes (concrete)', timeout=900),
 ]
 GC_CAP = [
     H(ROOT + 'gc::gc_k_param_type_capacity', ['derived Deserialize for PublicKeyCredentialParameters', 'heapless String<32>'],
-      kind='gc', bound='type strings of exactly 32 and 33 bytes'),
+      kind='gc', bound='concrete type strings of exactly 32 and 33 bytes', timeout=900),
 ]
 GC_ROUNDTRIP = [
     H(ROOT + 'gc::gc_k_roundtrip_small', ['derived (De)SerializeIndexed for large_blobs::Request', 'derived serde impls for AuthenticatorOptions'],
-      kind='gc', bound='two concrete shapes'),
+      kind='gc', bound='two concrete values', timeout=900),
 ]
 K_C03_HEADS = [
     H(ROOT + 'c03::c03_k_uint_heads', ['cbor-smol ser.rs (u64) — dependency contract A6, checked']),
@@ -288,9 +288,9 @@ K_C18_STRINGS = [
 ]
 K_C17 = [
     H(ROOT + 'c17::c17_k_client_pin_n5', ['ctap2::Response::serialize::<5>'], kind='bounded', bound='N = 5; ClientPin responses with scalar members (bodies 1..=8 bytes)'),
-    H(ROOT + 'c17::c17_k_client_pin_n8', ['ctap2::Response::serialize::<8>'], kind='bounded', bound='N = 8'),
+    H(ROOT + 'c17::c17_k_client_pin_n8', ['ctap2::Response::serialize::<8>'], kind='bounded', bound='N = 8', tier='thorough', timeout=1800),
     H(ROOT + 'c17::c17_k_parameterless', ['ctap2::Response::serialize (Reset / Selection / Vendor)'], kind='bounded', bound='N in {1, 16}'),
-    H(ROOT + 'c17::c17_k_large_blobs_n3_n4', ['ctap2::Response::serialize (LargeBlobs)'], kind='bounded', bound='N in {3, 4}'),
+    H(ROOT + 'c17::c17_k_large_blobs_n3_n4', ['ctap2::Response::serialize (LargeBlobs)'], kind='bounded', bound='N in {3, 4}', tier='thorough', timeout=1800),
     H(ROOT + 'c17::c17_k_capacity_one_memberless_response', ['ctap2::Response::serialize::<1>'], kind='bounded', bound='N = 1, ClientPin response without members'),
     H(ROOT + 'c17::c17_k_client_pin_n1_n2_n3', ['ctap2::Response::serialize::<1|2|3>'], kind='bounded', bound='N in {1, 2, 3}', tier='thorough', timeout=1800),
     H(ROOT + 'c17::c17_k_client_pin_n16', ['ctap2::Response::serialize::<16>'], kind='bounded', bound='N = 16', tier='thorough', timeout=1800),
@@ -394,7 +394,7 @@ K_LOSSY = [
 ]
 K_TYPE_CAP = [
     H(ROOT + 'c14::c14_k_filtered_params_type_capacity', ['<FilteredPublicKeyCredentialParameters as Deserialize>::deserialize', 'String<32> capacity of the entry type'],
-      kind='bounded', bound='lists of 0..=2 entries, type strings of 10 or 33 bytes'),
+      kind='bounded', bound='lists of 0..=1 entries, type strings of 10 or 33 bytes', timeout=1200),
 ]
 K_FILTERED_LEN = [
     H(ROOT + 'c14::c03_k_filtered_params_serialize_length', ['<FilteredPublicKeyCredentialParameters as Serialize>::serialize'], kind='proof',
@@ -402,7 +402,7 @@ K_FILTERED_LEN = [
 ]
 K_GNA = [
     H(ROOT + 'c02::c02_k_get_next_assertion_like_get_assertion', ['ctap2::Response::serialize::<48> (GetAssertion | GetNextAssertion arm)'],
-      kind='bounded', bound='one concrete shape of the fixed members, symbolic optional scalars, N = 48', timeout=1200),
+      kind='bounded', bound='one concrete shape of the fixed members, symbolic optional scalars, N = 48', timeout=3600, tier='thorough'),
 ]
 PROPS['C01']['kani'] = GC_DECODE + GC_OPTIONS + K_LOSSY + K_TYPE_CAP
 PROPS['C02']['kani'] = K_C17[:5] + K_GNA + K_FILTERED_LEN + K_FILTERED_SER + GC_ROUNDTRIP
@@ -420,11 +420,23 @@ PROPS['C09']['kani'] = [
     H(ROOT + 'c09::c09_k_authenticate_small', ['ctap1::Response::serialize::<80> (Authenticate)'], kind='gc',
       bound='S = 80, symbolic pre-fill 0..=80, signature <= 2 bytes'),
     H(ROOT + 'c09::c09_k_register_small', ['ctap1::Response::serialize::<80> (Register)'], kind='gc',
-      bound='S = 80, symbolic pre-fill, key handle / certificate / signature <= 2 bytes', timeout=1200),
+      bound='S = 80, symbolic pre-fill, key handle / certificate / signature <= 2 bytes', timeout=1800, tier='thorough'),
 ]
 PROPS['C07']['kani'] = PROPS['C07']['kani'] + [
     H(ROOT + 'c07::c07_k_extensions_present_iff_supplied', ['ctap2::AuthenticatorData::serialize (extension outputs)'], kind='gc',
       bound='three concrete extension shapes, symbolic hash / flags / counter'),
-    H(ROOT + 'c07::c07_k_capacity_frontier_quick', ['ctap2::AuthenticatorData::serialize', 'AttestedCredentialData::serialize'], kind='gc',
-      bound='totals 676 / 677 / 678 with concrete lengths', timeout=1200),
 ]
+
+# Response::serialize is proved by Verus for every capacity (unit c17_response_serialize); the Kani harnesses stay as
+# syntax-agnostic backstops on the real monomorphised code and carry the known finding.
+PROPS['C17']['level'] = 'proof'
+PROPS['C17']['verus'] = ['c17_response_serialize']
+PROPS['C17']['assumptions'] = ['A4', 'A6', 'AV', 'AK', 'AS', 'AX']
+PROPS['C17']['explanation'] = ('Unbounded proof for every capacity N >= 1, every response kind and every previous buffer content: Verus verifies '
+    'the real Response::serialize (verbatim) against "complete message or exactly [7F]", under the assumed contracts of heapless '
+    'resize_default / split_first_mut and of cbor_serialize (writes its encoding iff it fits). The single known finding (N == 1 and a '
+    'member-less map body) is excluded by the precondition and demonstrated by its own Kani harness. Kani harnesses for small N run '
+    'the real monomorphised code.')
+PROPS['C02']['verus'] = ['c17_response_serialize']
+PROPS['C15']['kani'] = PROPS['C15']['kani'] + K_LOSSY[0:1] + K_LOSSY[4:5]
+PROPS['C16']['kani'] = []
